@@ -120,11 +120,13 @@ class Compiler:
             {}
         )  # bytecode_pos -> (line, column)
         self._current_loc: Optional[Tuple[int, int]] = None  # Current source location
+        self._hoisted: set = set()  # ids of function declarations bound on entry
         self._pending_label: Optional[str] = None  # label of the loop about to be compiled
 
     def compile(self, node: Program) -> CompiledFunction:
         """Compile a program to bytecode."""
         body = node.body
+        self._hoist_declarations(body)
 
         # Compile all statements except the last one
         for stmt in body[:-1] if body else []:
@@ -504,7 +506,11 @@ class Compiler:
                 if decl.init:
                     self._compile_expression(decl.init)
                 else:
-                    self._emit(OpCode.LOAD_UNDEFINED)
+                    # `var x;` only declares: the binding exists already (a local slot,
+                    # or the global created by _hoist_declarations) and keeps its value
+                    if self._in_function:
+                        self._add_local(name)
+                    continue
 
                 if self._in_function:
                     # Inside function: use local variable
@@ -897,6 +903,8 @@ class Compiler:
             self.loop_stack.pop()
 
         elif isinstance(node, FunctionDeclaration):
+            if id(node) in self._hoisted:
+                return  # bound on entry to the enclosing body (_hoist_declarations)
             # Compile function
             func = self._compile_function(node.id.name, node.params, node.body)
             func_idx = len(self.functions)
@@ -960,6 +968,33 @@ class Compiler:
             raise NotImplementedError(
                 f"Cannot compile statement: {type(node).__name__}"
             )
+
+    def _hoist_declarations(self, body: List[Node]) -> None:
+        """Bind what ECMAScript binds before the first statement of a body runs.
+
+        At program level every `var` name is created (as undefined) unless it exists
+        already; function declarations at the top level of the body are instantiated
+        first, so they can be used before the place where they are written.
+        """
+        functions = [s for s in body if isinstance(s, FunctionDeclaration)]
+        if not self._in_function:
+            names: set = set()
+            for stmt in body:
+                self._collect_var_decls(stmt, names)
+            for name in sorted(names - {f.id.name for f in functions}):
+                # if (typeof name === "undefined") name = undefined;
+                idx = self._add_name(name)
+                self._emit(OpCode.TYPEOF_NAME, idx)
+                self._emit(OpCode.LOAD_CONST, self._add_constant("undefined"))
+                self._emit(OpCode.SEQ)
+                skip = self._emit_jump(OpCode.JUMP_IF_FALSE)
+                self._emit(OpCode.LOAD_UNDEFINED)
+                self._emit(OpCode.STORE_NAME, idx)
+                self._emit(OpCode.POP)
+                self._patch_jump(skip)
+        for stmt in functions:
+            self._compile_statement(stmt)
+            self._hoisted.add(id(stmt))
 
     def _compile_statement_for_value(self, node: Node) -> None:
         """Compile a statement leaving its completion value on the stack.
@@ -1116,6 +1151,7 @@ class Compiler:
             self._emit(OpCode.RETURN)
         else:
             # Block body: compile statements
+            self._hoist_declarations(node.body.body)
             for stmt in node.body.body:
                 self._compile_statement(stmt)
             # Implicit return undefined
@@ -1216,6 +1252,7 @@ class Compiler:
         self._outer_locals.pop()
 
         # Compile function body
+        self._hoist_declarations(body.body)
         for stmt in body.body:
             self._compile_statement(stmt)
 
